@@ -569,6 +569,39 @@ func checkC13(c *run.Ctx) {
 			}
 		})
 	})
+	// (3b) long step sequences with many fallbacks (every one must be reported)
+	c.Parallel("many", c.N(300, 5000), func(i int, r *rand.Rand) {
+		n := []int{9, 10, 11, 12, 13, 20, 40, 100}[r.IntN(8)]
+		l := doc.L()
+		for k := 0; k < n; k++ {
+			switch r.IntN(5) {
+			case 0:
+				l.Seq = append(l.Seq, doc.M(doc.P("type", doc.S(gen.Ident(r)+"-x"))))
+			case 1:
+				l.Seq = append(l.Seq, doc.M(doc.P("nokind_"+gen.Ident(r), doc.I(int64(k)))))
+			case 2:
+				l.Seq = append(l.Seq, doc.S(gen.Ident(r)+"-scalar"))
+			case 3:
+				l.Seq = append(l.Seq, doc.M(doc.P("command", doc.S("ok")), doc.P("matrix", doc.I(5)))) // typed field of the wrong type -> fallback
+			default:
+				l.Seq = append(l.Seq, doc.M(doc.P("command", doc.S("fine"))))
+			}
+		}
+		var root *doc.Node = l
+		if r.IntN(2) == 0 {
+			root = doc.M(doc.P("steps", l), doc.P("agents", doc.M(doc.P("queue", doc.S("q")))))
+		}
+		txt := string(doc.ToJSON(root))
+		id := run.CaseID("many", i)
+		jr.write("", id, txt)
+		out, ok := c13Check(c, id, []byte(txt), "many-fallbacks")
+		jr.done(id)
+		c.Eval(1)
+		if ok {
+			c.Count("outcome_"+out.class, 1)
+			c.Max("max_fallbacks_in_one_document", int64(out.unknowns))
+		}
+	})
 	// (4) anchor/alias/merge graphs with cycles (the C07 generator) embedded as a step and as a top-level extra
 	ng := c.N(6000, 300000)
 	c.Phase("graphs", func() {
